@@ -291,10 +291,12 @@ def mnv_scan(chk, repo, rid):
     f = repo.func('seqvar.VariantRecord:find_mnvs_from_adjacent_variants')
     chk.uses(f)
     nf = f.node          # statement-level form (the canonical form merges the skip tests into one decision region)
-    loops_ = [l for l in ast.walk(nf) if isinstance(l, ast.For) and isinstance(l.iter, ast.Call) and call_name(l.iter) == 'range'
-              and any(isinstance(x, ast.Break) for x in ast.walk(l)) and not any(isinstance(m, ast.For) and m is not l for m in ast.walk(l))]
+    # the scan: the innermost loop with an early exit, over range(..) (candidate = variants[j]) or over a slice of the variants
+    # (directly or through enumerate: candidate = the loop variable)
+    loops_ = [l for l in ast.walk(nf) if isinstance(l, ast.For) and any(isinstance(x, ast.Break) for x in ast.walk(l))
+              and not any(isinstance(m, ast.For) and m is not l for m in ast.walk(l))]
     if len(loops_) != 1:
-        chk.undecided(rid, 'adjacent-variant scan', f.where, f"{len(loops_)} innermost range() scans with an early exit found", key=f.qual + '::scan', fn=f.qual)
+        chk.undecided(rid, 'adjacent-variant scan', f.where, f"{len(loops_)} innermost scans with an early exit found", key=f.qual + '::scan', fn=f.qual)
         return
     lp = loops_[0]
     inside = {id(x) for x in ast.walk(lp)}
@@ -311,11 +313,23 @@ def mnv_scan(chk, repo, rid):
                 out.append((st, ls))
         return out
     # the candidate: variants[<loop index>];  the anchor: the variant of the outer enumeration
-    iv = lp.target.id if isinstance(lp.target, ast.Name) else 'j'
-    outer = [l for l in ast.walk(nf) if isinstance(l, ast.For) and isinstance(l.iter, ast.Call) and call_name(l.iter) == 'enumerate' and any(x is lp for x in ast.walk(l))]
+    outer = [l for l in ast.walk(nf) if isinstance(l, ast.For) and isinstance(l.iter, ast.Call) and call_name(l.iter) == 'enumerate' and l is not lp
+             and any(x is lp for x in ast.walk(l))]
     v0 = outer[0].target.elts[1].id if outer and isinstance(outer[0].target, ast.Tuple) and len(outer[0].target.elts) == 2 else 'v_0'
     seqn = unparse(outer[0].iter.args[0]) if outer else 'variants'
-    cand = f'{seqn}[{iv}]'
+    it_ = lp.iter
+    cand = None
+    if isinstance(it_, ast.Call) and call_name(it_) == 'range' and isinstance(lp.target, ast.Name):
+        cand = f'{seqn}[{lp.target.id}]'
+    elif isinstance(it_, ast.Call) and call_name(it_) == 'enumerate' and it_.args and isinstance(it_.args[0], ast.Subscript) and unparse(it_.args[0].value) == seqn \
+            and isinstance(lp.target, ast.Tuple) and len(lp.target.elts) == 2 and isinstance(lp.target.elts[1], ast.Name):
+        cand = lp.target.elts[1].id
+    elif isinstance(it_, ast.Subscript) and unparse(it_.value) == seqn and isinstance(lp.target, ast.Name):
+        cand = lp.target.id
+    if cand is None:
+        chk.undecided(rid, 'adjacent-variant scan', repo.loc(f, lp), f"the candidate of the scan `for {unparse(lp.target)} in {unparse(lp.iter)[:60]}` was not recognised",
+                      key=f.qual + '::scan', fn=f.qual)
+        return
     past = sem.lit(f'{cand}.location.start > {v0}.location.end')
     before = sem.lit(f'{cand}.location.start < {v0}.location.end')
     brks = lits_at(lambda st: isinstance(st, ast.Break))
